@@ -18,7 +18,7 @@ def pregen():
 
 PREGEN_NOTES = pregen()   # at import: before the framework builds the Coq files
 THEOREMS = ['C01_run_invariant', 'C01_run_caller', 'C01_partial_und', 'C01_attempt', 'C01_rbu_step_partial',
-            'C01_source_table', 'C01_engine_is_table']
+            'C01_source_table', 'C01_engine_is_table', 'C01_rbu_full', 'C01_rbu_start_degrees']
 RULE = ('8 engine routines + randomize_graph_partial_und + randomizer_bin_und on generated graphs n=4..9 (ER at several '
         'densities, ring+chords, tree+chords, bridges, isolated nodes; binary and integer weights 1..9; domain filter: at least '
         'two vertex-disjoint edges, connected input for the _connected routines); itr in {0,1,2,5}; every run is recorded '
